@@ -1,6 +1,11 @@
 (* C08 — reference lists keep the textual order of the references. *)
 From Coq Require Import Sorting.Sorted.
-From TxV Require Import Core.Base Model.Resolve Proofs.ResolveProofs.
+From TxV Require Import Core.Base Gen.SrcResolve Model.Resolve Proofs.ResolveProofs.
+
+(* [load] is the resolver model instantiated with the facts that tools/translate/resolve_tr.py
+   reads from textx/model.py on every run (Gen/SrcResolve.v): how a resolved list reference is
+   stored, how Postponed references are re-queued, what counts as progress, the loop and error
+   conditions.  The theorems are therefore re-proved against the current source. *)
 
 (* For EVERY scope provider — any function of the reference and of the whole load history,
    hence every postponement schedule — and every distribution of the references over
@@ -17,6 +22,15 @@ Theorem C08_order : forall (ans : provider) models st,
 Proof. exact order_preserved. Qed.
 Print Assumptions C08_order.
 
+(* The retry queue keeps the textual order: after one pass over a model's pending references
+   (any provider, any state) the new pending list is exactly the list of delayed references,
+   it is the pending list with the resolved references removed - nothing reordered - and every
+   resolution was counted as progress. *)
+Theorem C08_retry_order : forall (ans : provider) pend st st' np d c,
+  step ans pend st = Some (st', np, d, c) -> np = d /\ sub np pend /\ length np + c = length pend.
+Proof. exact retry_in_order. Qed.
+Print Assumptions C08_retry_order.
+
 (* non-vacuity: list a,b,c with a postponed twice and c once, kept alive by two scalars *)
 Definition mk i s m p := {| xid := i; xslot := s; xmany := m; xpos := p; xtgt := 10 + i; xdeps := []; xnever := false |}.
 Definition demo_models := [[mk 0 0 true 0; mk 1 0 true 1; mk 2 0 true 2;
@@ -30,3 +44,10 @@ Example C08_nonvacuous :
   end.
 Proof. vm_compute. split; reflexivity. Qed.
 Print Assumptions C08_nonvacuous.
+Example C08_retry_nonvacuous :
+  match step (table_ans demo_delay) (hd [] demo_models) init with
+  | Some (_, np, d, c) => map xid np = [0; 2; 3] /\ map xid d = [0; 2; 3] /\ c = 2
+  | None => False
+  end.
+Proof. vm_compute. repeat split; reflexivity. Qed.
+Print Assumptions C08_retry_nonvacuous.
